@@ -16,7 +16,9 @@ inductive PErr where
   | malformed      -- NewickReaderMalformedStatementError (bad length, second label, '(' after a node, unbalanced)
   | incomplete     -- NewickReaderIncompleteTreeStatementError
   | duplicate      -- NewickReaderDuplicateTaxonError
-  | nexus          -- NexusReaderError and subclasses
+  | nexus          -- NexusReaderError and its subclasses other than the two below
+  | tooManyTaxa    -- NexusReader.TooManyTaxaError: a label beyond the declared NTAX (TAXLABELS, a MATRIX row)
+  | undefinedTaxon -- NexusReader.UndefinedTaxonError: a TRANSLATE label the (locked) namespace does not have
   | data           -- DataParseError raised by the PHYLIP / FASTA readers
 deriving Repr, DecidableEq
 
